@@ -22,6 +22,7 @@ import (
 
 	c4eapp "github.com/chain4energy/c4e-chain/app"
 	appparams "github.com/chain4energy/c4e-chain/app/params"
+	distrkeeper "github.com/chain4energy/c4e-chain/x/cfedistributor/keeper"
 	distrtypes "github.com/chain4energy/c4e-chain/x/cfedistributor/types"
 	minterkeeper "github.com/chain4energy/c4e-chain/x/cfeminter/keeper"
 	mintertypes "github.com/chain4energy/c4e-chain/x/cfeminter/types"
@@ -467,6 +468,13 @@ func (r *appRun) runBlock(pb plannedBlock, tracked []sdk.AccAddress, rep *Report
 	o.appHash = hex.EncodeToString(hash)
 	sb.WriteString(fmt.Sprintf("end %s;hash %s", eventsDigest(re.Events), o.appHash))
 	cctx := app.BaseApp.NewContext(true, tmproto.Header{Height: app.LastBlockHeight()})
+	// C03, after every block (whatever its transactions did in between): the module's two registered invariants on the committed state
+	if msg, broken := distrkeeper.NonNegativeCoinStateInvariant(app.CfedistributorKeeper)(cctx); true {
+		rep.Eval("C03.nonnegative_states_after_the_block", !broken, cid, bIdx, msg)
+	}
+	if msg, broken := distrkeeper.StateSumBalanceCheckInvariant(app.CfedistributorKeeper)(cctx); true {
+		rep.Eval("C03.books_match_the_main_account_after_the_block", !broken, cid, bIdx, msg)
+	}
 	o.supply = app.BankKeeper.GetSupply(cctx, BondDenom).Amount.BigInt()
 	o.minter = app.CfeminterKeeper.GetMinterState(cctx)
 	// canonical custom-module view for export/import comparison
@@ -685,6 +693,9 @@ func runAppCase(seed uint64, idx int, rep *Report, profile string, traceDir stri
 				to := users[rng.Intn(len(users))].addr
 				if rng.Chance(30) {
 					to = authtypes.NewModuleAddress(distrtypes.GreenEnergyBoosterCollector) // not blocked for plain sends? the handler decides
+				} else if rng.Chance(25) {
+					// a user's transfer to the distributor's own accounts, in the middle of a block
+					to = authtypes.NewModuleAddress([]string{distrtypes.DistributorMainAccount, distrtypes.GovernanceBoosterCollector}[rng.Intn(2)])
 				}
 				amt := sdk.NewCoins(sdk.NewCoin(BondDenom, sdk.NewIntFromBigInt(rng.LogUniform(9))))
 				ptx = plannedTx{user: ui, fee: fee, kind: "bank_send", msg: func(us []appUser) sdk.Msg {
